@@ -283,3 +283,32 @@ Proof.
   replace (in_u32 sod) with true by (symmetry; solve_in).
   destruct (1 <=? y); reflexivity.
 Qed.
+
+(** * z.datenaive — DateTime::date_naive: the date of the panicking wall-clock reading *)
+Theorem date_naive_spec a : dtz_ok a ->
+  if in_rng (wall a)
+  then exists d, dz_date_naive a = Val d /\ nominal d /\ dn d = wall a / 86400
+  else dz_date_naive a = Panic.
+Proof.
+  intros Ha. pose proof (naive_local_panics_iff a Ha) as H. unfold dz_date_naive.
+  destruct (in_rng (wall a)).
+  - destruct H as [l [H1 [[Hd [Hs _]] [H3 _]]]]. rewrite H1. cbv [bind]. exists (nd_date l).
+    split; [reflexivity|]. split; [exact Hd|]. unfold usecs in H3. lia.
+  - rewrite H. reflexivity.
+Qed.
+
+(** * z.acc — the 14-field tuple of the dispatcher, from the per-accessor theorems *)
+Theorem acc_tuple a : dtz_ok a ->
+  let w := wall a in let n := w / 86400 in let sod := w mod 86400 in
+  let '(y, m, d) := ymd_of_dn n in
+  dz_acc a = Val (VTup [VInt y; VInt m; VInt (m - 1); VInt d; VInt (d - 1);
+                        VInt (ordinal_of_dn n); VInt (ordinal_of_dn n - 1); VInt (weekday_of_dn n);
+                        VInt (sod / 3600); VInt (sod / 60 mod 60); VInt (sod mod 60); VInt (frac (dz_utc a));
+                        VInt (fst (iso_of_dn n)); VInt (snd (iso_of_dn n))]).
+Proof.
+  intros Ha. pose proof (accessors_wallclock_u a Ha) as A. destruct (iso_week_wallclock_full a Ha) as [w [W1 W2]].
+  cbv zeta in *. destruct (ymd_of_dn (wall a / 86400)) as [[y m] d].
+  destruct A as (A1 & A2 & A3 & A4 & A5 & A6 & A7 & A8 & A9 & A10 & A11 & A12).
+  unfold dz_acc. rewrite A1, A2, A3, A4, A5, A6, A7, A8, A9, A10, A11, A12, W1. cbv [bind].
+  rewrite <- W2. reflexivity.
+Qed.
